@@ -9,8 +9,10 @@ package shmipc
 import (
 	"bytes"
 	"encoding/binary"
+	"encoding/json"
 	"fmt"
 	"os"
+	"path/filepath"
 	"sort"
 	"sync/atomic"
 	"testing"
@@ -565,4 +567,99 @@ func TestVerifC13Wire(t *testing.T) {
 		assumptions: []string{"queue content and shared-memory buffers referenced by polling events are well formed (they are not bytes of the control connection)",
 			"< 1000 new stream ids per session (accept backlog is bounded by design)"},
 		gen: genWireCase, run: wireRun})
+}
+
+// ---------- native fuzz target (thorough tier): raw bytes, coverage-guided ----------
+
+// wireRawCase is what the fuzzer explores: the bytes of the control connection as they are, a queue content selector and two chunkings.
+type wireRawCase struct {
+	Server bool   `json:"server"`
+	Raw    []byte `json:"raw"`
+	Queue  uint8  `json:"queue"` // bit i set: queue element i of a fixed menu is placed before the first byte is delivered
+	ChunkA uint8  `json:"chunk_a"`
+	ChunkB uint8  `json:"chunk_b"`
+}
+
+var wireQueueMenu = []wireQElt{{ID: 1, N: 5}, {ID: 3, N: 130}, {ID: 1, Closed: true}, {ID: 5, N: 700}, {ID: 2, N: 1}, {ID: 3, Closed: true}}
+
+func (c wireRawCase) toCase() wireCase {
+	wc := wireCase{Server: c.Server, Trunc: -1, Events: []wireEvt{{Kind: "raw", Raw: c.Raw, Len: -1, Magic: -1, Version: -1, Type: -1}}}
+	for i, q := range wireQueueMenu {
+		if c.Queue&(1<<uint(i)) != 0 {
+			wc.Queue = append(wc.Queue, q)
+		}
+	}
+	chunk := func(b uint8) []int {
+		switch {
+		case b == 0:
+			return nil
+		case b < 32:
+			return []int{int(b)}
+		default:
+			return []int{int(b%7) + 1, int(b%13) + 1, int(b % 29)}
+		}
+	}
+	wc.ChunksA, wc.ChunksB = chunk(c.ChunkA), chunk(c.ChunkB)
+	return wc
+}
+
+func wireRawRun(c wireRawCase, r *runCtx) {
+	if len(c.Raw) == 0 {
+		return
+	}
+	wireRun(c.toCase(), r)
+}
+
+// TestVerifC13WireRaw replays crashers of the fuzz target (and nothing else: the search itself is FuzzVerifC13Wire).
+func TestVerifC13WireRaw(t *testing.T) {
+	runCheck(t, checkDef[wireRawCase]{name: "TestVerifC13WireRaw",
+		rule: "raw byte strings found by the coverage-guided fuzzer (seeded with valid events of every type and the hostile header constants), same oracles as the structured wire part",
+		gen: func(t *rapid.T) wireRawCase {
+			return wireRawCase{Server: rapid.Bool().Draw(t, "server"), Raw: rapid.SliceOfN(rapid.Byte(), 1, 64).Draw(t, "raw"),
+				Queue: rapid.Uint8().Draw(t, "q"), ChunkA: rapid.Uint8().Draw(t, "a"), ChunkB: rapid.Uint8().Draw(t, "b")}
+		}, run: wireRawRun})
+}
+
+func FuzzVerifC13Wire(f *testing.F) {
+	add := func(server bool, evs []wireEvt, q, a, b uint8) {
+		var raw []byte
+		for _, e := range evs {
+			raw = append(raw, e.encode()...)
+		}
+		f.Add(server, raw, q, a, b)
+	}
+	ok := func(k string, id uint32, st uint32, n int) wireEvt {
+		return wireEvt{Kind: k, ID: id, Status: st, N: n, Len: -1, Magic: -1, Version: -1, Type: -1}
+	}
+	add(true, []wireEvt{ok("poll", 0, 0, 0)}, 0x3f, 0, 1)
+	add(true, []wireEvt{ok("fallback", 7, 0, 100), ok("close", 7, 0, 0)}, 0, 0, 7)
+	add(false, []wireEvt{ok("fallback", 1, 1, 0), ok("poll", 0, 0, 0)}, 3, 8, 9)
+	add(true, []wireEvt{ok("hotrestart", 0, 0, 0)}, 0, 0, 0)
+	add(false, []wireEvt{ok("hotrestartack", 0, 0, 0)}, 0, 0, 0)
+	for _, l := range []int64{0, 7, 8, 9, 15, 16, 17, 1 << 31, 1<<32 - 1} {
+		e := ok("fallback", 9, 0, 20)
+		e.Len = l
+		add(true, []wireEvt{e, ok("poll", 0, 0, 0)}, 1, 0, 3)
+	}
+	for _, ty := range []int{0, 4, 5, 6, 7, 10, 255} {
+		e := ok("poll", 0, 0, 0)
+		e.Type = ty
+		add(true, []wireEvt{e}, 1, 0, 0)
+	}
+	f.Fuzz(func(t *testing.T, server bool, raw []byte, q, a, b uint8) {
+		if len(raw) == 0 || len(raw) > 8192 {
+			return
+		}
+		c := wireRawCase{Server: server, Raw: raw, Queue: q, ChunkA: a, ChunkB: b}
+		r := newRunCtx()
+		wireRawRun(c, r)
+		if r.viol != "" {
+			if vOut != "" {
+				cj, _ := json.Marshal(c)
+				rec, _ := json.MarshalIndent(violationRec{Test: "TestVerifC13WireRaw", Case: cj, Message: r.viol, Sig: r.sig}, "", " ")
+				_ = os.WriteFile(filepath.Join(vOut, fmt.Sprintf("violation-%d.json", vShard)), rec, 0644)
+			}
+			t.Fatalf("VIOLATION-CASE %s", r.viol)
+		}
+	})
 }
